@@ -176,8 +176,11 @@ def main(tier):
                 if fn not in ('to_engineering_notation',) and L in EXTREME_L:
                     tasks.append({'fn': fn, 'L': L, 'slo': -2 ** 63 + 1, 'shi': -SCALE_LIMIT - 1, 'cfg': cfg, 'extreme': True})
                     tasks.append({'fn': fn, 'L': L, 'slo': SCALE_LIMIT + 1, 'shi': 2 ** 63 - 1, 'cfg': cfg, 'extreme': True})
+                    if L >= 1:
+                        # scale exactly i64::MIN for non-zero values (zero at i64::MIN prints as 0: observation in DESIGN section 11)
+                        tasks.append({'fn': fn, 'L': L, 'slo': -2 ** 63, 'shi': -2 ** 63, 'cfg': cfg, 'extreme': True})
     rep.required_labels = {'display:plain form', 'display:exponent form', 'lowerexp:exponent form', 'to:plain form'}
-    rep.bounds = {'digits_L': '0 (zero) and 1..%d, symbolic digits and sign' % D, 'scale': 'every scale in [-10^15, 10^15] (symbolic; the code thresholds fork it); to_plain_string: -40..60; additionally (beyond the property quantifier) every remaining i64 scale except i64::MIN for all renderings but engineering / plain at digit lengths %s' % (EXTREME_L,),
+    rep.bounds = {'digits_L': '0 (zero) and 1..%d, symbolic digits and sign' % D, 'scale': 'every scale in [-10^15, 10^15] (symbolic; the code thresholds fork it); to_plain_string: -40..60; additionally (beyond the property quantifier) every remaining i64 scale (i64::MIN for non-zero values only) for all renderings but engineering / plain at digit lengths %s' % (EXTREME_L,),
                   'renderings': FNS, 'config constants read from the dump': cfg}
     rep.assumptions = ['fmt::Formatter::pad_integral with default options emits sign + buffer (std); integer Display/{:+} rendering is std',
                        'i128::from_str / BigInt::from_str_radix acceptance rules (std / num-bigint 0.4) as summarised in DESIGN 2.4']
